@@ -250,15 +250,8 @@ def skipLen : List SChar → Nat
 
 /-! ### Position automaton: which `take_token_*` the parser uses next -/
 
-/-- What follows `&&` / `||` (and_or.rs): newlines are skipped once, *before* the retry loop. -/
-inductive NlMode
-  | free      -- a newline here is handled by the caller
-  | fresh     -- just after `&&`/`||`: newlines are skipped
-  | stale     -- after `&&`/`||` and an alias substitution: a newline is now `MissingPipeline`
-  deriving Repr, DecidableEq
-
 inductive PState
-  | cmd0 (nl : NlMode)   -- `simple_command` with an empty builder / start of a command
+  | cmd0                 -- `simple_command` with an empty builder / start of a command
   | pre                  -- assignments or redirections seen, no word yet (`words.is_empty()`)
   | one                  -- exactly one word, nothing else (`is_one_word`: function definition possible)
   | args                 -- words present
@@ -277,7 +270,6 @@ structure Dec where
   sub : Option Bool := none
   onSub : PState := .err
   onTake : PState := .err
-  implErr : Bool := false    -- the parser fails here although the text alone is fine (restart asymmetry)
   deriving Repr
 
 def retState : Nat → PState
@@ -291,8 +283,7 @@ def isRedirOp (s : String) : Bool :=
 
 /-- Separators and closers after a complete command (list.rs, and_or.rs, pipeline.rs, case.rs). -/
 def afterCommandOp (s : String) : PState :=
-  if s == ";" || s == "&" || s == "\n" || s == "|" then .cmd0 .free
-  else if s == "&&" || s == "||" then .cmd0 .fresh
+  if s == ";" || s == "&" || s == "\n" || s == "|" || s == "&&" || s == "||" then .cmd0
   else if s == ")" then .afterComp
   else if s == ";;" || s == ";&" || s == ";;&" || s == ";|" then .casePat0
   else .err
@@ -301,7 +292,7 @@ def afterCommandOp (s : String) : PState :=
     simple_command.rs; then compound_command.rs / pipeline.rs / the enclosing clause take it raw). -/
 def keywordAtStart (k : String) : PState :=
   if k == "{" || k == "if" || k == "while" || k == "until" || k == "!" ||
-     k == "then" || k == "else" || k == "elif" || k == "do" then .cmd0 .free
+     k == "then" || k == "else" || k == "elif" || k == "do" then .cmd0
   else if k == "}" || k == "fi" || k == "done" || k == "esac" then .afterComp
   else if k == "for" then .forName
   else if k == "case" then .caseSubj
@@ -318,20 +309,15 @@ def trans (st : PState) (k : Kind) : Dec :=
   | _, .bad => {}
   | _, .eof => {}
   -- start of a command
-  | .cmd0 _, .io => { onTake := .pre }
-  | .cmd0 nl, .op s =>
+  | .cmd0, .io => { onTake := .pre }
+  | .cmd0, .op s =>
     if isRedirOp s then { onTake := .redir 0 }
-    else if s == "(" then { onTake := .cmd0 .free }
-    else if s == "\n" then
-      match nl with
-      | .free => { onTake := .cmd0 .free }
-      | .fresh => { onTake := .cmd0 .fresh }
-      | .stale => { implErr := true }
+    else if s == "(" then { onTake := .cmd0 }
     else { onTake := afterCommandOp s }
-  | .cmd0 nl, .word lit asg =>
+  | .cmd0, .word lit asg =>
     if isKeyword lit then { onTake := keywordAtStart (lit.getD "") }
     else { sub := some true,
-           onSub := .cmd0 (if nl == .free then .free else .stale),
+           onSub := .cmd0,
            onTake := if asg then .pre else .one }
   -- simple command under construction
   | .pre, .io => { onTake := .pre }
@@ -355,7 +341,7 @@ def trans (st : PState) (k : Kind) : Dec :=
   | .afterComp, .word lit _ =>
     match lit with
     | some k =>
-      if k == "then" || k == "else" || k == "elif" || k == "do" then { onTake := .cmd0 .free }
+      if k == "then" || k == "else" || k == "elif" || k == "do" then { onTake := .cmd0 }
       else if k == "}" || k == "fi" || k == "done" || k == "esac" then { onTake := .afterComp }
       else {}
     | none => {}
@@ -363,11 +349,11 @@ def trans (st : PState) (k : Kind) : Dec :=
   | .fnClose, .word _ _ => { sub := some false, onSub := .fnClose, onTake := .err }
   | .fnClose, .op s => if s == ")" then { onTake := .fnBody } else {}
   | .fnClose, .io => {}
-  | .fnBody, .op s => if s == "\n" then { onTake := .fnBody } else if s == "(" then { onTake := .cmd0 .free } else {}
+  | .fnBody, .op s => if s == "\n" then { onTake := .fnBody } else if s == "(" then { onTake := .cmd0 } else {}
   | .fnBody, .word lit _ =>
     match lit with
     | some k =>
-      if k == "{" || k == "if" || k == "while" || k == "until" then { onTake := .cmd0 .free }
+      if k == "{" || k == "if" || k == "while" || k == "until" then { onTake := .cmd0 }
       else if k == "for" then { onTake := .forName }
       else if k == "case" then { onTake := .caseSubj }
       else { sub := some false, onSub := .fnBody, onTake := .err }
@@ -382,7 +368,7 @@ def trans (st : PState) (k : Kind) : Dec :=
     else if s == "\n" then { onTake := .forIn false }
     else { sub := some false, onSub := .forIn fl, onTake := .err }
   | .forIn fl, .word lit _ =>
-    if lit == some "do" then { onTake := .cmd0 .free }
+    if lit == some "do" then { onTake := .cmd0 }
     else if lit == some "in" then { onTake := .forWords }
     else { sub := some false, onSub := .forIn fl, onTake := .err }
   | .forIn _, .io => {}
@@ -391,7 +377,7 @@ def trans (st : PState) (k : Kind) : Dec :=
   | .forWords, .op s => if s == ";" || s == "\n" then { onTake := .forBody } else {}
   | .forBody, .op s => if s == "\n" then { onTake := .forBody } else {}
   | .forBody, .word lit _ =>
-    if lit == some "do" then { onTake := .cmd0 .free }
+    if lit == some "do" then { onTake := .cmd0 }
     else { sub := some false, onSub := .forBody, onTake := .err }
   | .forBody, .io => {}
   -- case
@@ -412,7 +398,7 @@ def trans (st : PState) (k : Kind) : Dec :=
     else { sub := some false, onSub := .casePat1, onTake := .caseSep }
   | .casePat1, _ => {}
   | .caseSep, .word _ _ => { sub := some false, onSub := .caseSep, onTake := .err }
-  | .caseSep, .op s => if s == ")" then { onTake := .cmd0 .free } else if s == "|" then { onTake := .casePatN } else {}
+  | .caseSep, .op s => if s == ")" then { onTake := .cmd0 } else if s == "|" then { onTake := .casePatN } else {}
   | .caseSep, .io => {}
   | .casePatN, .word _ _ => { sub := some false, onSub := .casePatN, onTake := .caseSep }
   | .casePatN, _ => {}
@@ -457,8 +443,7 @@ def spliceChars (a : Alias) (c0 : SChar) : List SChar :=
 structure MState where
   pre : List SChar := []      -- consumed characters, most recent first
   rest : List SChar           -- characters from the lexer's `index` on
-  st : PState := .cmd0 .free
-  implErr : Bool := false
+  st : PState := .cmd0
   subs : Nat := 0             -- number of substitutions performed (observation only)
   toks : List Kind := []      -- tokens consumed, most recent first (observation only)
   deriving Repr
@@ -476,10 +461,10 @@ def step (T : Table) (s : MState) : Option MState :=
     match eligible T before c0 tok.kind d.sub with
     | some a =>
       some { pre := before, rest := spliceChars a c0 ++ tl.drop n, st := d.onSub,
-             implErr := s.implErr, subs := s.subs + 1, toks := s.toks }
+             subs := s.subs + 1, toks := s.toks }
     | none =>
       some { pre := (tl.take n).reverse ++ c0 :: before, rest := tl.drop n, st := d.onTake,
-             implErr := s.implErr || d.implErr, subs := s.subs, toks := tok.kind :: s.toks }
+             subs := s.subs, toks := tok.kind :: s.toks }
 
 /-- Runs `step` until the end of input; the flag is `true` iff the end was reached within the fuel. -/
 def run (T : Table) : Nat → MState → MState × Bool
